@@ -208,6 +208,71 @@ func build(work string, harness string) string {
 	return bin
 }
 
+// raceSupplementRun (C16, thorough tier, not deciding): the real-socket stages of C03, C15, C17 and C19 - the
+// library's client and service running freely over kernel sockets and the bridge - are executed once in a
+// binary built with Go's race detector, which also sees memory that vinstr does not instrument (bufio, maps).
+// A cooperative scheduler's hand-offs hide races from the detector, hence a separate free-running pass. Reports
+// whose stacks contain a varlink frame are listed in the evidence; they are sampling and never decide.
+func raceSupplementRun(work string) map[string]interface{} {
+	ov := filepath.Join(work, "instr", "overlay.json")
+	vinstr := filepath.Join(verif, "bin/vinstr")
+	args := []string{"-repo", repo, "-out", filepath.Join(work, "instr"), "-extra", filepath.Join(verif, "overlay_src"), "-noinstr"}
+	if alt := os.Getenv("VX_REPO"); alt != "" {
+		args = append(args, "-src", alt)
+	}
+	if out, err := run(filepath.Join(verif, "vx"), vinstr, args...); err != nil {
+		return map[string]interface{}{"error": "vinstr: " + tail(out, 300)}
+	}
+	bin := filepath.Join(work, "hbrace")
+	if out, err := run(filepath.Join(verif, "vx"), "go", "build", "-race", "-overlay", ov, "-o", bin, "./hb"); err != nil {
+		return map[string]interface{}{"error": "go build -race: " + tail(out, 300)}
+	}
+	res := map[string]interface{}{}
+	var reports []string
+	runs := 0
+	for _, p := range []string{"C03", "C15", "C17", "C19"} {
+		dir := filepath.Join(work, "race-"+p)
+		os.MkdirAll(dir, 0o755)
+		cmd := exec.Command(bin, "-tier", "quick", "-shard", "0", "-shards", "8", "-out", filepath.Join(dir, "out.json"), "-budget", "120s", p)
+		cmd.Env = append(goEnv(), "GORACE=halt_on_error=0 log_path="+filepath.Join(dir, "race"))
+		cmd.Dir = dir
+		cmd.CombinedOutput()
+		runs++
+		files, _ := filepath.Glob(filepath.Join(dir, "race.*"))
+		for _, f := range files {
+			b, _ := os.ReadFile(f)
+			for _, blk := range strings.Split(string(b), "==================") {
+				if strings.Contains(blk, "DATA RACE") && strings.Contains(blk, "github.com/varlink/go/varlink") {
+					var frames []string
+					for _, l := range strings.Split(blk, "\n") {
+						l = strings.TrimSpace(l)
+						if strings.HasPrefix(l, "github.com/varlink/go/varlink") {
+							frames = append(frames, strings.SplitN(l, "(", 2)[0])
+						}
+					}
+					if len(frames) > 4 {
+						frames = frames[:4]
+					}
+					reports = append(reports, strings.Join(frames, " <- "))
+				}
+			}
+		}
+	}
+	sort.Strings(reports)
+	uniq := reports[:0]
+	for i, r := range reports {
+		if i == 0 || r != reports[i-1] {
+			uniq = append(uniq, r)
+		}
+	}
+	res["stages_run"] = runs
+	res["reports_with_varlink_frames"] = uniq
+	for _, r := range uniq {
+		fmt.Printf("NOTE (not deciding): Go race detector, free-running real-socket stage: %s\n", r)
+	}
+	return res
+}
+
 // buildGenerator builds the tree's interface generator (with the request-server file added by the overlay)
 // and lists the compiler export data of package varlink and its dependencies, for the checks that
 // type-check and build generated code (C07, C08). Returns the environment entries the harness needs.
@@ -317,6 +382,10 @@ func check(id, tier string) int {
 			infra("%s", e)
 		}
 	}
+	var raceSupplement map[string]interface{}
+	if id == "C16" && tier == "thorough" {
+		raceSupplement = raceSupplementRun(work)
+	}
 	// merge
 	tot := shardResult{Outcomes: map[string]int{}, Races: map[string]string{}, Extra: map[string]int{}}
 	for _, r := range results {
@@ -425,6 +494,7 @@ func check(id, tier string) int {
 			"known_findings_matched":        knownHit,
 			"extra":                         tot.Extra,
 			"shards":                        shards,
+			"supplement_go_race_detector_free_running": raceSupplement,
 		},
 		"assumptions": tot.Assume,
 		"wall_s":      wall,
